@@ -256,6 +256,14 @@ MOVED_PIECES = {
 }
 
 
+# wire decoders store what the sender wrote (same scoping as the raw-constructor table of C16.b): the property quantifies over
+# sets built through the API; a decoded set is canonical if the sender's was
+WIRE_PIECES = {
+    "<yrs::ids::IdRanges<()> as yrs::updates::decoder::Decode>::decode": "wire decode: ranges are stored as sent",
+    "<yrs::id_map::IdMap<A> as yrs::updates::decoder::Decode>::decode": "wire decode: ranges are stored as sent",
+}
+
+
 def rule_f(R, ctx, rid="C16.f"):
     Y = ctx.yrs
     R.rule(rid, "R-GUARD no empty range is ever stored (canonical form; `contains`, equality and the encoders all assume it): in "
@@ -265,7 +273,7 @@ def rule_f(R, ctx, rid="C16.f"):
                 "entry test `range.start >= range.end -> return`; elements moved from elsewhere are a frozen table")
     n = 0
     for p, fn in sorted(Y.fns.items()):
-        if not (p.startswith("yrs::ids::") or p.startswith("yrs::id_set::") or p.startswith("yrs::id_map::")) or not fn.mir:
+        if fn.file not in ("yrs/src/ids.rs", "yrs/src/id_set.rs", "yrs/src/id_map.rs") or not fn.mir or "::test" in p:
             continue
         sites = [c for c in fn.calls() if re.search(r"(Vec|SmallVec)(<.*>)?::(push|insert)$", c.name) and len(c.args) >= 2]
         if not sites:
@@ -273,6 +281,12 @@ def rule_f(R, ctx, rid="C16.f"):
         v = FnView(fn)
         for cs, site in ordinal_sites(sites):
             el = mir_def(fn, cs.args[-1])
+            if Y.root_of(fn).path in WIRE_PIECES:
+                a = cs.args[-1]
+                al = a.get("m", a.get("c")) if isinstance(a, dict) else None
+                if isinstance(al, int) and str(fn.local_ty(al)).startswith("(std::ops::Range<u32>"):
+                    R.inventory(rid, fn, site, WIRE_PIECES[Y.root_of(fn).path], cs.loc())
+                continue
             if not (el and el[0] == "stmt" and isinstance(el[1].get("agg"), dict) and el[1]["agg"].get("kind") == "tuple" and len(el[1].get("ops", [])) == 2):
                 # not a (range, value) tuple built here
                 a = cs.args[-1]
@@ -330,6 +344,8 @@ def check(ctx, R):
     R.run("C16.d", rule_d, ctx)
     R.run("C16.e", rule_e, ctx)
     R.run("C16.f", rule_f, ctx)
+    from . import scans
+    R.run("C16.g", lambda R, c: scans.loop_scans(R, c, "C16.g", ["yrs::ids::IdRanges::subset_of"]), ctx)
     from . import preds
     R.run("C16.p", lambda R, c: preds.rule(R, c, "C16.p", ["idmap_contains", "blockrange_contains"]), ctx)
     return {}
